@@ -480,7 +480,9 @@ def _execute_once(script, w, G_in, a_in, feats_extra):
         # the seed set reaches the routine the way GBS samples do: a click pattern over the modes (mode i = i-th node of graph.nodes) converted
         # by sample.to_subgraphs - which must name exactly the clicked nodes, whatever order the nodes were inserted in
         from strawberryfields.apps import sample as sfsample
-        clicks = [1 if v_ in script["start"] else 0 for v_ in g["order"]]
+        rc_ = random.Random("c19c:%d" % script.get("sseed", 0))
+        resolved = rc_.random() < 0.5  # photon-number-resolving detectors: a clicked mode may report 2 or 3 photons - it is still one node
+        clicks = [(rc_.choice([1, 1, 2, 3]) if resolved else 1) if v_ in script["start"] else 0 for v_ in g["order"]]
         try:
             got_ = [int(x_) for x_ in sfsample.to_subgraphs([clicks], G)[0]]
         except Exception as ex:  # noqa
